@@ -163,6 +163,8 @@ impl Script {
         };
 
         *self.inner.phase.borrow_mut() = ScriptPhase::Codeblock(cb.clone());
+        #[cfg(boa_verif)]
+        crate::verif::emit_tree(&cb, "script");
 
         Ok(cb)
     }
